@@ -413,6 +413,10 @@ func TestC20EngineIds(t *testing.T) {
 			rec.Inconclusive("TestC20EngineIds", out.Inconcl)
 			rt.Fatalf("inconclusive: %s", out.Inconcl)
 		}
+		if out.Symptom == "flow-id-repeat" {
+			// (the driver's own uniqueness check over the run's NewFlowTrace ids)
+			rt.Fatalf("%s", rec.Fail(rec.Failure{Property: prop, Test: "TestC20EngineIds", Symptom: "trace-id-repeat", Detail: out.Detail, Descriptor: c}))
+		}
 		if restartErr != "" {
 			rec.Inconclusive("TestC20EngineIds", restartErr)
 			rt.Fatalf("inconclusive: %s", restartErr)
